@@ -534,6 +534,11 @@ class SqlImpl(TableImpl):
                 right_ast = verbs.Select(nd.right, reordered_cols)
                 right_table, right_query, right_sqa_expr = cls.compile_ast(right_ast, needed_cols)
 
+            # The row order of a union is unspecified and an ORDER BY is not allowed in
+            # the operands of a compound select.
+            query.order_by = []
+            right_query.order_by = []
+
             # Build left and right select statements
             left_sel = cls.compile_query(table, query, sqa_expr)
             right_sel = cls.compile_query(right_table, right_query, right_sqa_expr)
